@@ -13,12 +13,17 @@
 //   semtight <signals> <ooo 0|1> <waiters>
 //        waiters of 3 tokens with 20..60 us timeouts in a loop on one vCPU, a plain OS thread signalling 1 token at a time without
 //        pause: the resume pass of signal() keeps racing with waiters that time out and leave the queue
+//   condrace <rounds> <timeout us>
+//        W (vCPU A) waits on a condition variable with a random timeout of 1..<timeout> us, N (vCPU B) calls notify_one() after a
+//        random delay: every notify_one() that reports a woken waiter must be matched by a wait() returning 0 and vice versa
+//        (log: signal N <k> = notify_one()'s result, got W 1 = wait() returned 0; balance checked with remaining 0 at the end)
 //   semd <nvcpu> <pairs> <rounds> <os 0|1>
 //        destroy right after wait: the waiter destroys the semaphore and fills its memory with a pattern as soon as wait() returns;
 //        when the signaller's signal() has returned the pattern must be intact:   late-write <pair> <round>   otherwise
 //   cond <nvcpu> <producers> <consumers> <items per producer> <capacity>
 //        bounded buffer with photon::mutex + two condition variables, infinite waits: produced <p> <n> | got <c> <p> <seq>
-//   handoff <mutex|mutex0|rw|qrw> <rounds> <intr 0|1>
+//   handoff <mutex|mutex0|rw|qrw> <rounds> <intr 0|1> <timeout us, 0 = none>
+//        (with a timeout L's lock has a random timeout of 1..<timeout> us: the hand-over races with the waiter timing out)
 //        one hand-over per round between two vCPUs, aimed at the window between a locker's last failed attempt and its going to
 //        sleep: U (vCPU A) holds the lock, L (vCPU B) calls lock() (no timeout), U unlocks after a random delay of 0..3 us and
 //        does not touch the lock again until L has returned; with intr=1 a plain OS thread calls thread_interrupt(L) around the
@@ -105,10 +110,10 @@ static void lock_thread(LockArgs a) {
 }
 
 // ---------------------------------------------------------------- hand-over rounds
-static std::atomic<long> h_held{0}, h_going{0}, h_got{0}, h_intr_done{0}; static std::atomic<thread*> h_L{nullptr}; static long h_rounds = 0; static bool h_intr = false;
+static std::atomic<long> h_held{0}, h_going{0}, h_got{0}, h_intr_done{0}; static std::atomic<thread*> h_L{nullptr}; static long h_rounds = 0; static bool h_intr = false; static long h_to = 0;
 static long now_ns() { struct timespec ts; clock_gettime(CLOCK_MONOTONIC, &ts); return ts.tv_sec * 1000000000L + ts.tv_nsec; }
 static void spin_ns(long ns) { long t = now_ns() + ns; while (now_ns() < t) {} }
-static int h_lock(bool wr) { return g_m ? g_m->lock() : g_rw ? g_rw->lock(wr ? WLOCK : RLOCK) : g_q->lock(wr ? WLOCK : RLOCK); }
+static int h_lock(bool wr, Timeout to = {}) { return g_m ? g_m->lock(to) : g_rw ? g_rw->lock(wr ? WLOCK : RLOCK, to) : g_q->lock(wr ? WLOCK : RLOCK, to); }
 static void h_unlock() { if (g_m) g_m->unlock(); else if (g_rw) g_rw->unlock(); else g_q->unlock(); }
 static void handoff_U() {
     unsigned rs = 4242;
@@ -133,7 +138,7 @@ static void handoff_L() {
         while (h_held.load() != r) { if (finished_threads.load()) { finished_threads++; return; } }
         rs = rs * 1103515245 + 12345; bool wr = g_m ? true : ((rs >> 16) & 1);
         h_going.store(r);
-        ev(wr ? CALL_W : CALL_R, 2); errno = 0; int ret = h_lock(wr); int en = ret ? errno : 0;
+        ev(wr ? CALL_W : CALL_R, 2); errno = 0; int ret = h_to ? h_lock(wr, Timeout(1 + (rs >> 4) % h_to)) : h_lock(wr); int en = ret ? errno : 0;
         if (ret == 0) { if (wr) { if (in_w.fetch_add(1) != 0 || in_r.load() != 0) ev(OVERLAP, 2, in_w.load(), in_r.load()); } else { in_r.fetch_add(1); if (in_w.load() != 0) ev(OVERLAP, 2, in_w.load(), in_r.load()); } }
         ev(wr ? RET_W : RET_R, 2, ret, en);
         if (ret == 0) { ev(UNLOCK, 2); if (wr) in_w.fetch_sub(1); else in_r.fetch_sub(1); h_unlock(); }
@@ -217,6 +222,36 @@ static void semtight_W(int id) {
     finished_threads++;
 }
 static void semtight_S(long n) { for (long i = 0; i < n; ++i) { ev(SIGNAL, 1, 1); g_sem->signal(1); progress++; } o_stop = true; }
+static mutex* bm; static condition_variable *not_empty, *not_full; static std::deque<uint64_t> buf; static size_t bcap = 1;
+static std::atomic<long> c_round{0}, c_done{0}, c_ndone{0}; static std::atomic<int> c_ret{0}; static long c_rounds = 0, c_to = 50;
+static void condrace_W() {
+    unsigned rs = 5;
+    for (long r = 1; r <= c_rounds; ++r) {
+        rs = rs * 1103515245 + 12345;
+        bm->lock();
+        c_round.store(r);                                  // N may notify from now on: W holds the lock until it is a waiter
+        int ret = not_empty->wait(*bm, 1 + (rs >> 8) % c_to);
+        bm->unlock();
+        c_ret.store(ret);
+        c_done.store(r); progress++;
+        while (c_ndone.load() != r) {}
+    }
+    finished_threads++;
+}
+static void condrace_N() {
+    unsigned rs = 6;
+    for (long r = 1; r <= c_rounds; ++r) {
+        while (c_round.load() != r) {}
+        rs = rs * 1103515245 + 12345; spin_ns((rs >> 8) % (c_to * 1000 + 2000));
+        bm->lock(); bm->unlock();                          // W has become a waiter (or has already returned)
+        int k = not_empty->notify_one() ? 1 : 0;
+        while (c_done.load() != r) {}
+        if (k) ev(SIGNAL, 1, k);                          // both results of the round are logged here, in this order
+        if (c_ret.load() == 0) ev(GOT, 1, 1);
+        c_ndone.store(r); progress++;
+    }
+    finished_threads++;
+}
 struct Pair { std::atomic<semaphore*> sem{nullptr}; std::atomic<int> signalled{0}, taken{0}; };
 static void semd_waiter(Pair* p, int id, int rounds) {
     for (int r = 0; r < rounds; ++r) {
@@ -244,7 +279,6 @@ static void semd_signaller(Pair* p, int rounds, bool photon_env) {
 }
 
 // ---------------------------------------------------------------- condition variable scenario
-static mutex* bm; static condition_variable *not_empty, *not_full; static std::deque<uint64_t> buf; static size_t bcap = 1;
 static std::atomic<long> consumed{0}; static long total_items = 0;
 static void cond_producer(int p, long n) {
     ev(PRODUCED, p, n);
@@ -290,7 +324,7 @@ static int run_program(const std::vector<std::string>& lines) {
         for (int v = 0; v < nv; ++v) { std::vector<std::function<void()>> b; for (int k = 0; k < per; ++k) { LockArgs a{++id, iters, hold, to == "inf" ? (uint64_t)-1 : strtoull(to.c_str(), 0, 10), wpct, (unsigned)(id * 7919)}; b.push_back([a] { lock_thread(a); }); } on_vcpu(b); }
         total_threads = id;
     } else if (kind == "handoff") {
-        std::string what; int intr; is >> what >> h_rounds >> intr; h_intr = intr; TOS = "inf";
+        std::string what; int intr; is >> what >> h_rounds >> intr >> h_to; h_intr = intr; TOS = h_to ? std::to_string(h_to) : "inf";
         if (what == "mutex") g_m = new mutex; else if (what == "mutex0") g_m = new mutex(0); else if (what == "rw") g_rw = new rwlock; else g_q = new qrwlock;
         on_vcpu({[] { handoff_L(); }});
         while (!h_L.load()) thread_usleep(100);
@@ -325,6 +359,12 @@ static int run_program(const std::vector<std::string>& lines) {
         on_vcpu(b);
         os.emplace_back([n] { usleep(2000); semtight_S(n); });
         total_threads = nw;
+    } else if (kind == "condrace") {
+        is >> c_rounds >> c_to;
+        bm = new mutex; not_empty = new condition_variable; g_sem = new semaphore(0);
+        on_vcpu({[] { condrace_W(); }});
+        on_vcpu({[] { condrace_N(); }});
+        total_threads = 2;
     } else if (kind == "semd") {
         int nv, pairs, rounds, useos; is >> nv >> pairs >> rounds >> useos;
         std::vector<std::vector<std::function<void()>>> per(nv);
@@ -355,6 +395,7 @@ static int run_program(const std::vector<std::string>& lines) {
     if (kind == "semooo") { usleep(20000); finish("result done"); }      // the never-satisfied waiters are not joined
     for (auto& t : os) t.join();
     if (kind == "lock") printf("counter %ld %ld\n", (long)unprotected, granted_w.load());
+    if (kind == "sem" || kind == "semtight" || kind == "condrace") { dump_log(); logpos = 0; printf("remaining %lu\n", (unsigned long)g_sem->count()); }
     finish("result done");
     return 0;
 }
